@@ -340,6 +340,10 @@ def expand(path, seen=None, defs=None):
             if skip or st.split()[2] not in defs:
                 skip += 1
             continue
+        if st.startswith('//@@ ifndef '):
+            if skip or st.split()[2] in defs:
+                skip += 1
+            continue
         if st == '//@@ endif':
             if skip:
                 skip -= 1
@@ -626,7 +630,30 @@ def rewrite_status_matches(text, fn, log):
 
 
 def rewrite_method_calls(text, name, fn, rule, log):
-    """every `<recv>.<name>[::<T>](args)` -> `<fn>(<recv>, args)`; receiver = maximal postfix chain before the dot"""
+    """every `<recv>.<name>[::<T>](args)` -> `<fn>(<recv>, args)`; receiver = maximal postfix chain before the dot.
+    `a.b` as name: `<recv>.a(args1).b(args)` with @@RECV / @@ARGS1 / @@ARGS in the template"""
+    if '.' in name:
+        first, second = name.split('.')
+        marker = '__vp_chain__'
+        text2 = rewrite_method_calls(text, second, marker + '(@@RECV ;; @@ARGS)', rule, [])
+        out, pos = [], 0
+        while True:
+            k = text2.find(marker + '(', pos)
+            if k < 0:
+                out.append(text2[pos:])
+                break
+            close = find_matching(text2, k + len(marker))
+            inner = text2[k + len(marker) + 1:close - 1]
+            recv, args = inner.rsplit(';;', 1)
+            recv = recv.strip()
+            m = re.match(r'(.*)\.\s*' + first + r'\s*\((.*)\)\s*$', recv, re.S)
+            if not m:
+                raise GenError('chained method rewrite %s: receiver %r does not end with .%s(..)' % (name, recv[:60], first))
+            new = fn.replace('@@RECV', m.group(1).strip()).replace('@@ARGS1', m.group(2).strip()).replace('@@ARGS', args.strip())
+            log.append((rule, strip_ws(recv + '.' + second + '(' + args + ')'), strip_ws(new)))
+            out.append(text2[pos:k]); out.append(new)
+            pos = close
+        return ''.join(out)
     while True:
         s = sig(lex(text))
         hit = None
@@ -726,7 +753,29 @@ def apply_splices(text, d, log):
     for sp in d.splices:
         a, b = find_span(text, sp['anchor'], sp['ordinal'], 'splice anchor')
         ins = '\n'.join((l + GHOST_MARK) if l.strip() else l for l in sp['lines'].split('\n'))
-        if sp['where'] == 'after_stmt':
+        if sp['where'] == 'before_stmt':
+            # before the beginning of the statement containing the anchor: previous ';' '{' '}' at depth 0 (scanning backwards)
+            toks_before = sig(lex(text[:a]))
+            depth = 0
+            pos = 0
+            for tk in reversed(toks_before):
+                if tk.kind != 'punct':
+                    continue
+                if tk.text in ')]':
+                    depth += 1
+                elif tk.text in '([':
+                    if depth == 0:
+                        pos = tk.end
+                        break
+                    depth -= 1
+                elif tk.text == '}' and depth == 0:
+                    pos = tk.end
+                    break
+                elif tk.text in ';{' and depth == 0:
+                    pos = tk.end
+                    break
+            text = text[:pos] + '\n' + ins + '\n' + text[pos:]
+        elif sp['where'] == 'after_stmt':
             # after the end of the statement that contains the anchor: next ';' at depth 0
             depth = sum(1 for tk in sig(lex(text[a:b])) if tk.kind == 'punct' and tk.text in '([{') - \
                 sum(1 for tk in sig(lex(text[a:b])) if tk.kind == 'punct' and tk.text in ')]}')
